@@ -38,6 +38,7 @@ fn audit_daggy(rng: &mut Lcg) {
         let n = 1 + rng.below(7) as usize;
         let mut g: G = Dag::new();
         if g.node_count() != 0 || g.edge_count() != 0 { fail("A5 Dag::new", "not empty".into()); }
+        { let d: G = Default::default(); if d.node_count() != 0 || d.edge_count() != 0 { fail("A5 Dag::default", "not empty".into()); } }
         for i in 0..n { let r = g.add_node(i * 10); if r.index() != i || g.node_count() != i + 1 { fail("A5 add_node", format!("index {} for node {i}", r.index())); } }
         let mut model: Vec<(usize, usize, Edge)> = vec![];
         for _ in 0..rng.below(16) {
